@@ -43,7 +43,7 @@ def corpus_files(corpusdir):
 
 HANDWRITTEN = [
     'a <<E\nx\nE\n', 'a <<-E\n\tx\n\tE\n', 'a <<E <<F\nx\nE\ny\nF\n', 'a <<E', 'a <<E\nx\n', "a <<'E'\nx\nE\n",
-    'a <<E\nx\nE\nb', '{ a <<E\nx\nE\n}', '( a <<E\nx\nE\n)', 'a <<E | b\nx\nE\n', 'a <<E && b <<F\n1\nE\n2\nF\nc',
+    'a <<E\nx\nE\nb', 'cat <<E &&\nx\nE\nb\nnext', 'cat <<E |\nx\nE\nwc -l\nnext x', 'a <<E ||\nx\nE\nb && c\nd', 'cat <<EOF\n\\\nfoo\nEOF\n', 'cat <<EOF\n\\\nfoo\nEOF\nb', '{ a <<E\nx\nE\n}', '( a <<E\nx\nE\n)', 'a <<E | b\nx\nE\n', 'a <<E && b <<F\n1\nE\n2\nF\nc',
     'case x in a) b;; esac', 'case x in a|b) c;; (d) e;& f) g;;& esac', 'case x in\na) b\n;;\nesac',
     'for i in a b; do c; done', 'for i; do c; done', 'for i\ndo c\ndone', 'for i in a\n{ c; }',
     'function f { a; }', 'f() { a; }', 'function f() { a; }', 'f()\n{ a; } >x',
@@ -173,7 +173,7 @@ class Gen:
             delim = self.r.choice(['E', 'EOF', 'E1', 'x'])
             spell = self.r.choice([delim, delim, delim, "'" + delim + "'", '"' + delim + '"', '\\' + delim])
             dash = self.r.random() < 0.3
-            body = ''.join(self.r.choice(['x\n', ' y z\n', '\n', delim + 'x\n', ' ' + delim + '\n', '$(a)\n', '\tq\n', 'a\\\nb\n'])
+            body = ''.join(self.r.choice(['x\n', ' y z\n', '\n', delim + 'x\n', ' ' + delim + '\n', '$(a)\n', '\tq\n', 'a\\\nb\n', '\\\nfoo\n'])
                            for _ in range(self.r.randint(0, 3)))
             end = ('\t' if dash and self.r.random() < 0.5 else '') + delim + '\n'
             self.pending.append(body + end)
@@ -256,7 +256,7 @@ class Gen:
     def andor(self, depth):
         s = self.pipeline(depth)
         for _ in range(self.r.choice([0, 0, 0, 0, 1, 2]) if self.budget > 0 else 0):
-            s += self.osp() + self.r.choice(['&&', '||']) + (self.osp() if self.r.random() < 0.85 else self.nl()) + self.pipeline(depth)
+            s += self.osp() + self.r.choice(['&&', '||']) + (self.osp() if self.r.random() < (0.4 if (self.pending and depth == 0) else 0.85) else self.nl()) + self.pipeline(depth)
         return s
     def listline(self, depth):
         """one-line list: and-or lists joined by ; or &, optional trailing ; or &"""
